@@ -45,8 +45,35 @@ func genTxnC(r *sim.Rand, tier, prop string) *sim.Case {
 	c.Cfg["pct_depth"] = r.Pick64(0, 0, 1, 2, 2, 3, 3, 4)
 	c.Cfg["pct_horizon"] = r.Pick64(100, 300, 600)
 	c.Cfg["pause_odds"] = r.Pick64(0, 3, 6, 12)
+	c.Cfg["pause_budget"] = r.Pick64(0, 1, 1, 2, 3)
 	ntasks := r.Pick(2, 3, 4)
 	c.Cfg["tasks"] = int64(ntasks)
+	// "late committer" shape (1 in 4): task 0 runs a single update transaction;
+	// every other task commits a write and then reads everything twice in fresh
+	// transactions - whatever point task 0 is preempted at, a complete commit and a
+	// later snapshot read of its keys happen around it.
+	if r.Intn(4) == 0 {
+		c.Cfg["pct_depth"] = r.Pick64(2, 2, 3)
+		c.Cfg["pause_budget"] = r.Pick64(1, 1, 2)
+		if c.Cfg["pause_odds"] == 0 {
+			c.Cfg["pause_odds"] = 6
+		}
+		k0 := r.Intn(nkeys)
+		c.Ops = append(c.Ops, sim.Op{K: "txn", A: 0, B: 1, S: fmt.Sprintf("g:%d,s:%d:%d", k0, k0, r.Intn(40))})
+		for t := 1; t < ntasks; t++ {
+			k := r.Intn(nkeys)
+			c.Ops = append(c.Ops, sim.Op{K: "txn", A: int64(t), B: 1, S: fmt.Sprintf("g:%d,s:%d:%d", k, k, r.Intn(40))})
+			for rep := 0; rep < 2; rep++ {
+				var steps []string
+				for kk := 0; kk < nkeys; kk++ {
+					steps = append(steps, fmt.Sprintf("g:%d", kk))
+				}
+				steps = append(steps, "i:0", fmt.Sprintf("g:%d", k0))
+				c.Ops = append(c.Ops, sim.Op{K: "txn", A: int64(t), B: int64(rep), S: strings.Join(steps, ",")})
+			}
+		}
+		return c
+	}
 	for t := 0; t < ntasks; t++ {
 		ntx := 1 + r.Intn(3)
 		for x := 0; x < ntx; x++ {
